@@ -183,11 +183,23 @@ func c6Check(c *Ctx, lv map[string]int64) {
 							for k := 0; k < 12; k++ {
 								if hc, ok := hook.(*ssa.Call); ok && IsCallTo(hc, "go.uber.org/zap.terminalHookOverride") {
 									ha := Args(hc)
-									d0 := st.Desc(ha[0])
-									if mi, ok := ha[0].(*ssa.MakeInterface); ok {
+									// which argument is the default action and which the configured hook: by type
+									iDef, iOv := 0, 1
+									isConstAction := func(v ssa.Value) bool {
+										if mi, ok := v.(*ssa.MakeInterface); ok {
+											v = mi.X
+										}
+										_, isC := v.(*ssa.Const)
+										return isC
+									}
+									if len(ha) == 2 && !isConstAction(ha[0]) && isConstAction(ha[1]) {
+										iDef, iOv = 1, 0 // (configured, fallback): the default is the constant action
+									}
+									d0 := st.Desc(ha[iDef])
+									if mi, ok := ha[iDef].(*ssa.MakeInterface); ok {
 										d0 = st.Desc(mi.X)
 									}
-									hd = "terminalHookOverride(" + d0 + ", " + st.Desc(ha[1]) + ")"
+									hd = "terminalHookOverride(" + d0 + ", " + st.Desc(ha[iOv]) + ")"
 									break
 								}
 								nx := st.Step(hook)
@@ -274,6 +286,19 @@ func c6Check(c *Ctx, lv map[string]int64) {
 		// decided by exploring the function with the override fixed to each kind of value in turn: nil, every
 		// CheckWriteAction constant, and a non-nil hook of some other type
 		def, ov := th.Params[0], th.Params[1]
+		// which parameter is the default: the one every call site hands a constant action
+		for _, site := range sitesOf(th) {
+			a := Args(site)
+			if len(a) == 2 {
+				v := a[1]
+				if mi, ok := v.(*ssa.MakeInterface); ok {
+					v = mi.X
+				}
+				if _, isC := v.(*ssa.Const); isC {
+					def, ov = th.Params[1], th.Params[0] // (configured, fallback) instead of (default, override)
+				}
+			}
+		}
 		type ocase struct {
 			name string
 			init func(st *ConcState)
@@ -703,6 +728,15 @@ func c6Write(c *Ctx) {
 		a := Args(coreWrite)
 		d1, d2 = Desc(a[1]), Desc(a[2])
 		over = strings.Replace(over, PN(coreWrite.Parent().Params[0])+".", rc+".", 1)
+		// the loop is a helper's and ranges over a parameter of it (the list itself is handed over): what the call
+		// site binds that parameter to
+		if h := coreWrite.Parent(); h != fn {
+			for _, q := range h.Params {
+				if PN(q) == over {
+					over = Desc(q)
+				}
+			}
+		}
 	})
 	c.Check(ok && over == rc+".cores", "R6.3", name, "all-cores", coreWrite.Pos(), "every accepting core is written (range over %s, no early exit) %s", over, why)
 	// a tee registered as ONE core (under a wrapper that registers itself) must hand the final entry to all its branches too
@@ -870,7 +904,7 @@ func c6Actions(c *Ctx) {
 			for _, g := range WithClosures(f) {
 				AllInstrs(g, func(i ssa.Instruction) {
 					if st, ok := i.(*ssa.Store); ok {
-						if gl, ok := st.Addr.(*ssa.Global); ok && gl.Name() == "_exit" && gl.Pkg.Pkg.Path() == ep {
+						if gl, ok := st.Addr.(*ssa.Global); ok && GN(gl) == "_exit" && gl.Pkg.Pkg.Path() == ep {
 							if FStr(g) == ep+".init" {
 								initOK = Desc(st.Val) == "func os.Exit"
 							}
@@ -886,7 +920,7 @@ func c6Actions(c *Ctx) {
 	c.EachRootFunc(func(g *ssa.Function) {
 		AllInstrs(g, func(i ssa.Instruction) {
 			if st, ok := i.(*ssa.Store); ok {
-				if gl, ok := st.Addr.(*ssa.Global); ok && gl.Name() == "_exit" && !allowed[FStr(g)] {
+				if gl, ok := st.Addr.(*ssa.Global); ok && GN(gl) == "_exit" && !allowed[FStr(g)] {
 					badWriters = append(badWriters, FStr(g))
 				}
 			}
@@ -1425,7 +1459,8 @@ func c6GrpcRoutes(c *Ctx, rule string) {
 		var hit ssa.CallInstruction
 		for _, cl := range Calls(fn) {
 			f := CalleeFunc(cl)
-			if f == nil || FNm(f) != parts[1] {
+			// (a …ln method may hand its arguments to the sugared logger's own …ln method of the same level)
+			if f == nil || FNm(f) != parts[1] && !(strings.HasSuffix(m, "ln") && parts[0] == "delegate" && FNm(f) == parts[1]+"ln") {
 				continue
 			}
 			if Desc(Args(cl)[0]) == "l."+parts[0] {
